@@ -431,6 +431,20 @@ func decHook(id, beh string, dec *jsontext.Decoder, set func(string)) error {
 		_, err := dec.ReadToken()
 		set(id + ":partial")
 		return err
+	case "open-all":
+		// opens the array or object and reads everything in it except the closing token: the number of
+		// values read inside may equal the number the caller expects at its own level, the depth does not
+		tok, err := dec.ReadToken()
+		set(id + ":partial")
+		if err != nil || (tok.Kind() != '[' && tok.Kind() != '{') {
+			return err
+		}
+		for k := dec.PeekKind(); k != ']' && k != '}' && k != 0; k = dec.PeekKind() {
+			if err := dec.SkipValue(); err != nil {
+				return err
+			}
+		}
+		return nil
 	case "unsup":
 		_ = dec.PeekKind()
 		_ = dec.StackDepth()
